@@ -62,7 +62,12 @@ const (
 	algSHA256 = 11
 	evNoAct   = 3
 	physBase  = uint64(0x100000000)
+	// fixed in /repo (2e17f58): LogInit wrote the locality with "%c" (two UTF-8 bytes from 128 on).
+	// Not an open entry of KNOWN_FINDINGS.json: the probe below reports a VIOLATION if it comes back.
 	knownUTF8 = "C01-startup-locality-utf8"
+	// open entry of KNOWN_FINDINGS.json: TPMEvent.Apply extends the PCR whatever the event type, also
+	// for EV_NO_ACTION, whose log entries both replay routines do not extend
+	knownNoAction = "C01-noaction-typed-event-extended"
 )
 
 var algs = []uint16{algSHA1, algSHA256}
@@ -739,7 +744,25 @@ func genStartup(l uint8) (items []*itemSpec, logged bool) {
 	return []*itemSpec{{kind: "loginit", l: l}, {kind: "init", l: l}}, true
 }
 
-// genWF: a flow of the well-formed kind
+// genPair: a TPM2_PCR_Extend-style measurement made of two actions: TPMExtend of the digest of
+// the data (Hasher converter of the bank's algorithm) and TPMEventLogAdd of the same digest
+func (p *platform) genPair() []*itemSpec {
+	alg := pick[uint16](algSHA1, algSHA256)
+	pi := pick[uint8](0, 0, 1)
+	d := p.genData(false)
+	d.conv = alg
+	td := &types.Data{Converter: realConv(alg, ctx.Rng.Intn(2) == 0)}
+	for _, r := range d.refs {
+		td.References = append(td.References, realRef(r))
+	}
+	raw, _ := rawOf(d)
+	return []*itemSpec{
+		{kind: "extend", p: pi, alg: alg, src: srcSpec{data: d}, ds: (*datasources.StaticData)(td)},
+		{kind: "logadd", p: pi, alg: alg, digest: hashOf(alg, raw.b), ty: genType(false), evd: genEvd()},
+	}
+}
+
+// genWF: a flow of the well-formed kind: one startup, then measurements that extend and log
 func (p *platform) genWF() []*itemSpec {
 	items, _ := genStartup(genLocality())
 	n := pick(0, 0, 1, 2, 2, 3, 3, 4, 5, 7)
@@ -749,6 +772,18 @@ func (p *platform) genWF() []*itemSpec {
 			items = append(items, &itemSpec{kind: "pcr0"})
 		case ctx.Rng.Intn(25) == 0:
 			items = append(items, &itemSpec{kind: "panic"})
+		case ctx.Rng.Intn(25) == 0: // another TPMInit: refused, changes nothing
+			if ctx.Rng.Intn(2) == 0 {
+				items = append(items, &itemSpec{kind: "init", l: genLocality()})
+			} else {
+				items = append(items, &itemSpec{kind: "inittpm", l: genLocality()})
+			}
+		case ctx.Rng.Intn(7) == 0:
+			items = append(items, p.genPair()...)
+		case ctx.Rng.Intn(30) == 0: // finding C01-noaction-typed-event-extended
+			it := p.genEvent(false)
+			it.ty = evNoAct
+			items = append(items, it)
 		default:
 			items = append(items, p.genEvent(false))
 		}
@@ -1101,9 +1136,20 @@ func toParsed(log tpm.EventLog) *tpmeventlog.TPMEventLog {
 	return out
 }
 
+// wfInfo: what the oracle needs to know about the shape of a flow
+type wfInfo struct {
+	ok     bool
+	l      uint8
+	logged bool
+	noAct  []*itemSpec // TPMEvents typed EV_NO_ACTION (finding C01-noaction-typed-event-extended)
+}
+
 // wellFormed: the flow (its items in order, Panic steps aside) is one startup followed by
-// measurements that extend and log the same digest
-func wellFormed(items []*itemSpec) (ok bool, l uint8, logged bool) {
+// measurements that extend and log the same digest: TPMEvent, the PCR0_DATA pair, or a TPMExtend of
+// a digest of the bank's size into PCR 0/1 directly followed by a TPMEventLogAdd of that digest
+// (digestOf: the converted bytes the extend's references denote, read independently; nil if they
+// cannot be read).  Further TPMInit / InitTPM(_, false) items are refused by the TPM and harmless.
+func wellFormed(items []*itemSpec, digestOf func(*itemSpec) []byte) wfInfo {
 	var xs []*itemSpec
 	for _, it := range items {
 		if it.kind != "panic" {
@@ -1111,31 +1157,45 @@ func wellFormed(items []*itemSpec) (ok bool, l uint8, logged bool) {
 		}
 	}
 	isInit := func(it *itemSpec) bool { return it.kind == "init" || (it.kind == "inittpm" && !it.withLog) }
+	var w wfInfo
 	n := 0
 	switch {
 	case len(xs) >= 1 && xs[0].kind == "inittpm" && xs[0].withLog:
-		l, logged, n = xs[0].l, true, 1
+		w.l, w.logged, n = xs[0].l, true, 1
 	case len(xs) >= 2 && isInit(xs[0]) && xs[1].kind == "loginit" && xs[1].l == xs[0].l:
-		l, logged, n = xs[0].l, true, 2
+		w.l, w.logged, n = xs[0].l, true, 2
 	case len(xs) >= 2 && xs[0].kind == "loginit" && isInit(xs[1]) && xs[1].l == xs[0].l:
-		l, logged, n = xs[0].l, true, 2
+		w.l, w.logged, n = xs[0].l, true, 2
 	case len(xs) >= 1 && isInit(xs[0]):
-		l, logged, n = xs[0].l, false, 1
+		w.l, w.logged, n = xs[0].l, false, 1
 	default:
-		return false, 0, false
+		return wfInfo{}
 	}
-	for _, it := range xs[n:] {
-		switch it.kind {
-		case "event":
+	rest := xs[n:]
+	for i := 0; i < len(rest); i++ {
+		it := rest[i]
+		switch {
+		case it.kind == "event":
 			if it.ty == evNoAct {
-				return false, 0, false
+				w.noAct = append(w.noAct, it)
 			}
-		case "pcr0":
+		case it.kind == "pcr0", isInit(it):
+		case it.kind == "extend":
+			dg := digestOf(it)
+			if i+1 >= len(rest) || rest[i+1].kind != "logadd" || dg == nil || it.p > 1 || hsize(it.alg) == 0 || len(dg) != hsize(it.alg) {
+				return wfInfo{}
+			}
+			lg := rest[i+1]
+			if lg.p != it.p || lg.alg != it.alg || !bytes.Equal(lg.digest, dg) || lg.ty == evNoAct {
+				return wfInfo{}
+			}
+			i++
 		default:
-			return false, 0, false
+			return wfInfo{}
 		}
 	}
-	return true, l, logged
+	w.ok = true
+	return w
 }
 
 type runResult struct {
@@ -1335,6 +1395,9 @@ func judge(r *runResult) {
 	measBytes := make([][]byte, len(s.MeasuredData))
 	measRead := make([]bool, len(s.MeasuredData)) // ConvertedBytes returned (it may return nil for no bytes)
 	for i := range s.MeasuredData {
+		if _, ok := s.MeasuredData[i].TrustChain.(*tpm.TPM); !ok {
+			continue // measured into another trust chain (built-in flows: the ACM/PCH measurements), not the TPM's business
+		}
 		var cb []byte
 		pan, _ := gal.Recover(func() { cb = s.MeasuredData[i].ConvertedBytes() })
 		if pan {
@@ -1470,6 +1533,20 @@ func judge(r *runResult) {
 	var apErr error
 	apPan, _ := gal.Recover(func() { apErr = cmds.Apply(bg, ap) })
 
+	// --- oracle (b0): every PCR bank value is the TCG fold H(old || digest), from the startup value,
+	// of the extends the command log records for it (computed above with Go's crypto, independently of
+	// the simulator and of both replay routines)
+	if t.IsInitialized() {
+		for pi := 0; pi < 2; pi++ {
+			for _, a := range algs {
+				pv, err := t.PCRValues.Get(pcr.ID(pi), tpm2.Algorithm(a))
+				expect(err == nil && bytes.Equal(pv, ref[[2]uint16{uint16(pi), a}]),
+					fmt.Sprintf("PCR%d bank %d != fold of H(old || digest) over the extends recorded in the command log, starting from the startup value", pi, a),
+					"pkg/bootflow/subsystems/trustchains/tpm/command_extend.go:Apply / command_init.go:Apply")
+			}
+		}
+	}
+
 	// --- oracle (b): command log
 	expect(pcrsEqual(re.PCRValues, t.PCRValues), "re-executing the recorded command log (Apply by Apply) on a new TPM does not give the same PCR values",
 		"pkg/bootflow/subsystems/trustchains/tpm: TPMExecute/CommandLog vs Command.Apply")
@@ -1477,39 +1554,6 @@ func judge(r *runResult) {
 		expect(!apPan && apErr == nil && pcrsEqual(ap.PCRValues, t.PCRValues),
 			"CommandLog.Commands().Apply on a new TPM does not reproduce the PCR values of a flow that ran without issues",
 			"pkg/bootflow/subsystems/trustchains/tpm/command.go:Commands.Apply")
-	}
-
-	// --- oracle (a): event log
-	wf, wl, logged := wellFormed(items)
-	started = t.IsInitialized()
-	if wf && started {
-		if wl != loc {
-			expect(false, "startup locality of the command log differs from the flow's", "tpm_init.go")
-		}
-		for i, a := range algs {
-			pv, err := t.PCRValues.Get(0, tpm2.Algorithm(a))
-			expect(err == nil && bytes.Equal(tpmReplays[i], pv),
-				fmt.Sprintf("tpm.EventLog.Replay(0, %d, startup locality %d) != PCR0 bank value after a flow in which every extend is logged", a, loc),
-				"pkg/bootflow/subsystems/trustchains/tpm/event_log.go:Replay")
-		}
-		if logged || wl == 0 {
-			for pi := 0; pi < 2; pi++ {
-				for ai, a := range algs {
-					pv, err := t.PCRValues.Get(pcr.ID(pi), tpm2.Algorithm(a))
-					x := replays[pi*2+ai]
-					good := err == nil && !x.pan && x.err == nil && bytes.Equal(x.v, pv)
-					if !good && logged && wl >= 128 && pi == 0 && x.err != nil {
-						checks++
-						fails = append(fails, fail{knownUTF8,
-							fmt.Sprintf("tpmeventlog.Replay rejects the simulator's own log: startup locality %d was logged as UTF-8 (%v)", wl, x.err),
-							"pkg/bootflow/steps/tpmsteps/log_init.go:LogInitStruct.Actions (fmt %c)"})
-						continue
-					}
-					expect(good, fmt.Sprintf("tpmeventlog.Replay(own event log, PCR%d, alg %d) != PCR bank value after a flow in which every extend is logged (startup locality %d, logged=%v)", pi, a, wl, logged),
-						"pkg/tpmeventlog/replay.go:Replay / pkg/bootflow/actions/tpmactions/tpm_event.go")
-				}
-			}
-		}
 	}
 
 	// --- oracle (c): digests
@@ -1529,6 +1573,78 @@ func judge(r *runResult) {
 		if byAction[e.CauseAction] == nil {
 			expect(false, fmt.Sprintf("command %s has a cause action that is not an action of the flow", e.Command.LogString()), "tpm.go:TPMExecute")
 		}
+	}
+	// --- oracle (a): event log
+	wfi := wellFormed(items, func(it *itemSpec) []byte {
+		if m := measOf[it]; m != nil && !it.src.err && m.readable {
+			return m.conv.b
+		}
+		return nil
+	})
+	wf, wl, logged := wfi.ok, wfi.l, wfi.logged
+	started = t.IsInitialized()
+	if wf && started {
+		if wl != loc {
+			expect(false, "startup locality of the command log differs from the flow's", "tpm_init.go")
+		}
+		// finding C01-noaction-typed-event-extended: a TPMEvent typed EV_NO_ACTION that was extended
+		// into PCR pi: both replay routines are expected to miss that PCR (and only that one)
+		var tainted [2]bool
+		for _, it := range wfi.noAct {
+			if cs := byCause[it.acts[0]]; cs != nil && it.p < 2 {
+				for _, c := range cs.cmds {
+					if _, ok := c.(*tpm.CommandExtend); ok {
+						tainted[it.p] = true
+					}
+				}
+			}
+		}
+		knownNoAct := func(pi int, what string) {
+			checks++
+			fails = append(fails, fail{knownNoAction, what + fmt.Sprintf(" (a TPMEvent of type EV_NO_ACTION was extended into PCR%d)", pi),
+				"pkg/bootflow/actions/tpmactions/tpm_event.go:TPMEvent.Apply (extends whatever the event type)"})
+		}
+		for i, a := range algs {
+			pv, err := t.PCRValues.Get(0, tpm2.Algorithm(a))
+			good := err == nil && bytes.Equal(tpmReplays[i], pv)
+			if tainted[0] {
+				if !good {
+					knownNoAct(0, fmt.Sprintf("tpm.EventLog.Replay(0, %d, startup locality %d) != PCR0 bank value", a, loc))
+				}
+				continue
+			}
+			expect(good,
+				fmt.Sprintf("tpm.EventLog.Replay(0, %d, startup locality %d) != PCR0 bank value after a flow in which every extend is logged", a, loc),
+				"pkg/bootflow/subsystems/trustchains/tpm/event_log.go:Replay")
+		}
+		if logged || wl == 0 {
+			for pi := 0; pi < 2; pi++ {
+				for ai, a := range algs {
+					pv, err := t.PCRValues.Get(pcr.ID(pi), tpm2.Algorithm(a))
+					x := replays[pi*2+ai]
+					good := err == nil && !x.pan && x.err == nil && bytes.Equal(x.v, pv)
+					if tainted[pi] {
+						if !good && !x.pan {
+							knownNoAct(pi, fmt.Sprintf("tpmeventlog.Replay(own event log, PCR%d, alg %d) != PCR bank value (replay error: %v)", pi, a, x.err))
+							continue
+						}
+						if good {
+							continue
+						}
+					}
+					expect(good, fmt.Sprintf("tpmeventlog.Replay(own event log, PCR%d, alg %d) != PCR bank value after a flow in which every extend is logged (startup locality %d, logged=%v)", pi, a, wl, logged),
+						"pkg/tpmeventlog/replay.go:Replay / pkg/bootflow/actions/tpmactions/tpm_event.go")
+				}
+			}
+		}
+	}
+
+	oneInit := func(cs *caused, l uint8) bool {
+		if cs == nil || len(cs.cmds) != 1 {
+			return false
+		}
+		ci, ok := cs.cmds[0].(*tpm.CommandInit)
+		return ok && ci.Locality == l
 	}
 	isExt := func(c tpm.Command, p uint8, a uint16, d []byte) bool {
 		x, ok := c.(*tpm.CommandExtend)
@@ -1626,7 +1742,17 @@ func judge(r *runResult) {
 					"PCR0_DATA: the logged digest != hash(alg, concatenation of the six referenced fields) (extend and log-add must carry the same digest)",
 					"pkg/bootflow/steps/intelsteps/measure_pcr0_data.go:compileActions")
 			}
+		case "logadd":
+			cs := byCause[it.acts[0]]
+			expect(cs != nil && len(cs.cmds) == 1 && isLog(cs.cmds[0], it.p, it.alg, it.digest, it.ty, it.evd),
+				"the command issued for a TPMEventLogAdd does not carry the action's PCR, algorithm, digest, type and data",
+				"pkg/bootflow/actions/tpmactions/tpm_event_log_add.go:Apply")
+		case "init":
+			expect(oneInit(byCause[it.acts[0]], it.l), "TPMInit(l) did not issue exactly one TPM init command at locality l", "pkg/bootflow/actions/tpmactions/tpm_init.go:Apply")
 		case "loginit", "inittpm":
+			if it.kind == "inittpm" {
+				expect(oneInit(byCause[it.acts[0]], it.l), "InitTPM(l, _) did not issue exactly one TPM init command at locality l", "pkg/bootflow/steps/tpmsteps/init_tpm.go")
+			}
 			if it.kind == "inittpm" && !it.withLog {
 				continue
 			}
@@ -1637,17 +1763,7 @@ func judge(r *runResult) {
 			for b, a := range las {
 				cs := byCause[a]
 				want := append([]byte("StartupLocality\x00"), it.l)
-				okc := cs != nil && len(cs.cmds) == 1
-				if okc && !isLog(cs.cmds[0], 0, algs[b], make([]byte, hsize(algs[b])), evNoAct, want) {
-					if it.l >= 128 {
-						checks++
-						fails = append(fails, fail{knownUTF8,
-							fmt.Sprintf("LogInit(%d) does not log \"StartupLocality\\x00\" followed by the locality byte", it.l),
-							"pkg/bootflow/steps/tpmsteps/log_init.go:LogInitStruct.Actions (fmt %c)"})
-						continue
-					}
-					okc = false
-				}
+				okc := cs != nil && len(cs.cmds) == 1 && isLog(cs.cmds[0], 0, algs[b], make([]byte, hsize(algs[b])), evNoAct, want)
 				expect(okc, fmt.Sprintf("LogInit(%d) does not add the EV_NO_ACTION startup-locality entry (zero digest, \"StartupLocality\\x00\"+locality) for bank %d", it.l, algs[b]),
 					"pkg/bootflow/steps/tpmsteps/log_init.go")
 			}
@@ -1700,6 +1816,7 @@ func header() string {
 	return sb.String()
 }
 
+// probeUTF8: fixed witness of a defect that was repaired in /repo (regression probe)
 func probeUTF8() {
 	p := newPlatform(false, false, 0)
 	p.state.SetFlow(types.NewFlow("probe", types.Steps{
@@ -1714,6 +1831,22 @@ func probeUTF8() {
 	}
 	ctx.Probe(knownUTF8, err != nil,
 		fmt.Sprintf("InitTPM(200, true); Measure(0, EV_POST_CODE, Bytes{1,2}): startup entry data = %x; tpmeventlog.Replay(own log, 0, SHA1) -> %v", data, err))
+}
+
+// probeNoAction: fixed witness of the open finding C01-noaction-typed-event-extended
+func probeNoAction() {
+	p := newPlatform(false, false, 0)
+	p.state.SetFlow(types.NewFlow("probe", types.Steps{
+		tpmsteps.InitTPM(0, false),
+		tpmsteps.Measure(0, tpmeventlog.EV_NO_ACTION, datasources.Bytes{1, 2, 3}),
+	}))
+	bootengine.NewBootProcess(p.state).Finish(bg)
+	pv, _ := p.tpm.PCRValues.Get(0, tpm2.AlgSHA1)
+	var r1 []byte
+	gal.Recover(func() { r1 = p.tpm.EventLog.Replay(0, tpm2.AlgSHA1, 0) })
+	r2, err := tpmeventlog.Replay(toParsed(p.tpm.EventLog), 0, tpm2.AlgSHA1, nil)
+	ctx.Probe(knownNoAction, !bytes.Equal(pv, r1) && !bytes.Equal(pv, r2),
+		fmt.Sprintf("InitTPM(0, false); Measure(0, EV_NO_ACTION, Bytes{1,2,3}): PCR0/SHA1 = %x; tpm.EventLog.Replay(0, SHA1, 0) = %x; tpmeventlog.Replay(own log, 0, SHA1) = %x, %v", []byte(pv), r1, r2, err))
 }
 
 func main() {
@@ -1735,7 +1868,9 @@ func main() {
 	nIntel := ctx.Scale(40, 300)
 
 	mkPlat := func() *platform {
-		useFW := ctx.Rng.Intn(10) < 6
+		// the 64 KiB firmware is needed for PCR0_DATA and GUID-selected volumes, but every range read
+		// from it costs the Coq model ~10 ms: most platforms carry the 4 KiB image
+		useFW := ctx.Rng.Intn(10) < 3
 		hasRegs := useFW && ctx.Rng.Intn(10) < 8
 		return newPlatform(useFW, hasRegs, ctx.Rng.Uint64())
 	}
@@ -1764,5 +1899,6 @@ func main() {
 		judge(r)
 	}
 	probeUTF8()
+	probeNoAction()
 	ctx.Finish("per case: a boot flow built from the public constructors is run by bootengine on the real code; the model (Model/BootSim.v over Model/TPM.v, Model/EventLog.v, Model/Refs.v) is run on the same items with the case's hash table; compared: TPM.PCRValues, CommandLog, EventLog, ConvertedBytes of every MeasuredData entry, which actions had issues, tpmeventlog.Replay for both PCRs and banks, tpm.EventLog.Replay for both banks, PCRValues after re-executing the command log (Apply by Apply and Commands.Apply)")
 }
